@@ -7,10 +7,14 @@ use std::sync::atomic::{AtomicUsize, Ordering};
 use std::sync::Arc;
 
 mod jitter;
+#[cfg(feature = "send_sync_obligations")]
+mod send_sync;
 
 fn main() {
     let args: Vec<String> = std::env::args().collect();
     std::panic::set_hook(Box::new(|_| {}));
+    #[cfg(feature = "send_sync_obligations")]
+    send_sync::obligations();
     let code = match args.get(1).map(|s| s.as_str()) {
         Some("jitter") => jitter::main(&args[2..]),
         _ => {
